@@ -500,7 +500,10 @@ def mux_family(rng, apply):
     ins = list(dict.fromkeys(ins))
     m = names.pop()
     mr = rails.pop() if (rails and rng.random() < 0.3) else ""
-    s = apply({"op": "add_comp", "parent": [addr(i) for i in ins], "comp": comp("pmux", m), "group": "", "rail": mr})
+    mux_op = {"op": "add_comp", "parent": [addr(i) for i in ins], "comp": comp("pmux", m), "group": "", "rail": mr}
+    if rng.random() < 0.25:
+        mux_op["parent_form"] = "tuple"         # rejected today (parent: str | list); if a version accepts it, everything after must still hold
+    s = apply(mux_op)
     if s["outcome"] != "ok":
         return
     rail_of[m] = mr
